@@ -340,7 +340,9 @@ def cfg_st(draw, shapes, identity_first=False, kinds=None):
 
 def gen_shapes(tier, heavy=False):
     if tier == "quick":
-        return ("1q", "1q", "qutrit", "2q")
+        # (a qubit x qutrit system, 36 basis elements, also in the quick tier for the facets that can afford it: sizes
+        # beyond 16 basis elements are where vectorised branches of the conversions would switch on)
+        return ("1q", "1q", "qutrit", "2q") if heavy else ("1q", "1q", "1q", "qutrit", "qutrit", "2q", "2q", "2x3")
     return ("1q", "qutrit", "2q") if heavy else ("1q", "qutrit", "2q", "2x3")
 
 
